@@ -81,17 +81,16 @@ char* strchr(const char* str, int chr)
    return (char*)p;
 }
 #elif defined(STRCHR_LIT)
-/* strchr on a string literal: the loop is bounded by the literal's length and is unwound completely */
+/* strchr on a short string literal (the only use in these instances): first occurrence or NULL, the terminator counts as part
+ * of the string.  Written out for literals of up to 24 characters (asserted) so that it needs neither a loop nor a local. */
+#define STRCHR_STEP(j) if(str[j] == (char)chr) return (char*)str + (j); if(str[j] == '\0') return 0;
 char* strchr(const char* str, int chr)
 {
-   for(int j = 0; ; j++)
-   {
-      if(str[j] == (char)chr)
-         return (char*)str + j;
-
-      if(str[j] == '\0')
-         return 0;
-   }
+   STRCHR_STEP(0) STRCHR_STEP(1) STRCHR_STEP(2) STRCHR_STEP(3) STRCHR_STEP(4) STRCHR_STEP(5) STRCHR_STEP(6) STRCHR_STEP(7)
+   STRCHR_STEP(8) STRCHR_STEP(9) STRCHR_STEP(10) STRCHR_STEP(11) STRCHR_STEP(12) STRCHR_STEP(13) STRCHR_STEP(14) STRCHR_STEP(15)
+   STRCHR_STEP(16) STRCHR_STEP(17) STRCHR_STEP(18) STRCHR_STEP(19) STRCHR_STEP(20) STRCHR_STEP(21) STRCHR_STEP(22) STRCHR_STEP(23)
+   __CPROVER_assert(0, "strchr model: string literal of at most 24 characters");
+   return 0;
 }
 #endif
 
@@ -228,13 +227,16 @@ extern "C" R LPFreadValue(char*& pos, SPxOut* spxout)
 {
 #include "LPFreadValue.inc"
 }
-extern "C" double w_readValue(char* line, int n, int off, int* off_out)
+extern "C" double w_readValue(char* line, int n, int off, int* off_out, int* tl_out, int* end_out)
 {
    VIN("n", n); VIN("len", g_len); VIN("off", off); VIN_ARR8("text", line + off, n - off);
    char* p = line + off;
    gp_line = line; gpp_pos = &p;
    R v = LPFreadValue(p, 0);
-   *off_out = (int)(p - line);
+   int out = (int)(p - line);
+   /* witness for the token length: a number token contains no white space, so a blank in front of the final pos is the skipped one */
+   int tl = (out > off && LPFisSpace(line[out - 1])) ? out - off - 1 : out - off;
+   *off_out = out; *tl_out = tl; *end_out = line[off + tl];
    return v;
 }
 #endif
@@ -283,14 +285,17 @@ extern "C" int LPFreadColName(char*& pos, NameSet* colnames, LPColSetBase<R>& co
 {
 #include "LPFreadColName.inc"
 }
-extern "C" int w_readColName(char* line, int n, int off, int have_empty, int* off_out)
+extern "C" int w_readColName(char* line, int n, int off, int have_empty, int* off_out, int* tl_out, int* end_out)
 {
    VIN("n", n); VIN("len", g_len); VIN("off", off); VIN("have_empty", have_empty); VIN_ARR8("text", line + off, n - off);
    char* p = line + off;
    gp_line = line; gpp_pos = &p;
    NameSet names; LPColSetBase<R> colset; LPColBase<R> emptycol;
    int r = LPFreadColName(p, &names, colset, have_empty ? &emptycol : 0, 0);
-   *off_out = (int)(p - line);
+   int out = (int)(p - line);
+   /* witness for the name length: ' ' is a delimiter and never part of a name, so a ' ' in front of the final pos is the skipped blank */
+   int tl = (out > off && line[out - 1] == ' ') ? out - off - 1 : out - off;
+   *off_out = out; *tl_out = tl; *end_out = line[off + tl];
    return r;
 }
 #endif
